@@ -2,7 +2,7 @@
 //
 //	c20obs diag < hex sources  ->
 //	   OK                                   (parses and compiles)
-//	   PERR <sl> <sc> <el> <ec> <hex source line> <friendly: ok|PANIC...> <hex message>
+//	   PERR <sl> <sc> <el> <ec> <hex source line> <friendly: ok|PANIC...> <hex message> f<hex error file> f<hex position file> lx=<tokens read>:<line>:<col of the end of the last token read> | lx=-
 //	   CERR <hex message>                   (compile error)
 //	   GOPANIC <text>
 //
@@ -19,8 +19,13 @@ import (
 
 	"github.com/risor-io/risor/compiler"
 	"github.com/risor-io/risor/errz"
+	"github.com/risor-io/risor/lexer"
+	"github.com/risor-io/risor/token"
 	"github.com/risor-io/risor/parser"
 )
+
+// the name given to the parser: every diagnostic must carry it
+const fileName = "prog.risor"
 
 func main() {
 	w := bufio.NewWriterSize(os.Stdout, 1<<20)
@@ -38,7 +43,7 @@ func main() {
 					fmt.Fprintf(w, "GOPANIC %v\n", strings.ReplaceAll(fmt.Sprint(r), "\n", " "))
 				}
 			}()
-			prog, err := parser.Parse(ctx, src)
+			prog, err := parser.Parse(ctx, src, parser.WithFile(fileName))
 			if err != nil {
 				pe, ok := err.(parser.ParserError)
 				if !ok {
@@ -56,9 +61,38 @@ func main() {
 					_ = fe.FriendlyErrorMessage()
 					_ = pe.Error()
 				}()
+				// independent reference for lexer errors: where the last token that could be read ends, and how many
+				// tokens were read before the lexer gave up ("-" when the whole input lexes)
+				lx := "-"
+				func() {
+					defer func() {
+						if r := recover(); r != nil {
+							lx = "-"
+						}
+					}()
+					l := lexer.New(src)
+					n := 0
+					var last token.Token
+					for n < 1<<22 {
+						t, err := l.Next()
+						if err != nil {
+							lx = fmt.Sprintf("%d:%d:%d", n, last.EndPosition.LineNumber(), last.EndPosition.ColumnNumber())
+							if n == 0 {
+								lx = "0:0:0"
+							}
+							return
+						}
+						if t.Type == token.EOF {
+							return
+						}
+						last = t
+						n++
+					}
+				}()
 				s, e := pe.StartPosition(), pe.EndPosition()
-				fmt.Fprintf(w, "PERR %d %d %d %d %s %s %s\n", s.LineNumber(), s.ColumnNumber(), e.LineNumber(), e.ColumnNumber(),
-					"h"+hex.EncodeToString([]byte(pe.SourceCode())), friendly, hex.EncodeToString([]byte(pe.Error())))
+				fmt.Fprintf(w, "PERR %d %d %d %d %s %s %s %s %s %s\n", s.LineNumber(), s.ColumnNumber(), e.LineNumber(), e.ColumnNumber(),
+					"h"+hex.EncodeToString([]byte(pe.SourceCode())), friendly, hex.EncodeToString([]byte(pe.Error())),
+					"f"+hex.EncodeToString([]byte(pe.File())), "f"+hex.EncodeToString([]byte(s.File)), "lx="+lx)
 				return
 			}
 			if _, err := compiler.Compile(prog, compiler.WithGlobalNames(globals)); err != nil {
